@@ -147,6 +147,9 @@ type Booking struct {
 	Credit, Debit string
 	Qty           Q
 	Com           string
+	// Deep: further decimal digits appended to the rendered quantity (a wei-precision
+	// amount); only for checks whose oracle does not compute with Qty.
+	Deep string `json:",omitempty"`
 }
 
 type Accrual struct {
@@ -218,7 +221,14 @@ func (d *Dir) Render() string {
 		}
 		fmt.Fprintf(&b, "%s \"%s\"\n", d.Date, d.Desc)
 		for _, bk := range d.Bookings {
-			fmt.Fprintf(&b, "%s %s %s %s\n", bk.Credit, bk.Debit, bk.Qty.Render(d.QStyle), bk.Com)
+			qs := bk.Qty.Render(d.QStyle)
+			if bk.Deep != "" {
+				if !strings.Contains(qs, ".") {
+					qs += ".0000"
+				}
+				qs += bk.Deep
+			}
+			fmt.Fprintf(&b, "%s %s %s %s\n", bk.Credit, bk.Debit, qs, bk.Com)
 		}
 	}
 	return b.String()
